@@ -8,7 +8,7 @@ NOTE_COMMON = "Trusted base: rustc's HIR/MIR construction and type checking on t
 
 CLAIMS = {
  "C01": ("MIR dataflow + dominance + dispatch-table analysis of writer/reader bookkeeping", "4 C01",
-         "Static analysis over the compiler's MIR of the current tree: entry counter incremented exactly once per insert and plumbed to the trailer and Reader::len; the codec/level reaching compress() at every block write and the codec named in the trailer have the builder's setters as their origin (interprocedural origin sets), and every block load uses the trailer's codec; no call that fills a byte buffer has its produced length discarded; compress/decompress dispatch tables agree per variant and from_u8 inverts `as u8` on all 256 ids; every block write is paired with a parent index entry (last key, offset read before the write) except the root; finish order (data, levels last-to-first, trailer last, flush); depth arithmetic; forward/backward twins are mirror images; a non-empty pending block is always flushed; the entry frame written by BlockWriter::insert agrees with the regions Block::entry_at reads, and no end-of-payload test of entry_at can turn a well-formed entry (empty key / value at the end of a block) into None (linear form over the frame's fields). Byte equality of the round trip through the codec crates is not decided."),
+         "Static analysis over the compiler's MIR of the current tree: entry counter incremented exactly once per insert and plumbed to the trailer and Reader::len; the codec/level reaching compress() at every block write and the codec named in the trailer have the builder's setters as their origin (interprocedural origin sets), and every block load uses the trailer's codec; no call that fills a byte buffer has its produced length discarded; compress/decompress dispatch tables agree per variant and from_u8 inverts `as u8` on all 256 ids; every block write is paired with a parent index entry (last key, offset read before the write) except the root; finish order (data, levels last-to-first, trailer last, flush); depth arithmetic; forward/backward twins are mirror images; a non-empty pending block is always flushed; the entry frame written by BlockWriter::insert agrees with the regions Block::entry_at reads, and no end-of-payload test of entry_at can turn a well-formed entry (empty key / value at the end of a block) into None (linear form over the frame's fields); the in-block offset table is pushed, reset and rebuilt consistently, reset restarting the interval counter. Byte equality of the round trip through the codec crates is not decided."),
  "C02": ("MIR comparison inventory (REL) + probe/offset dataflow on the seek path", "4 C02",
          "Static analysis: index keyed by last keys with the child's start offset, one probe through all levels, every key comparison on the seek path in canonical form with the action of each outcome (strictness, direction, arm), offset-table layout agreement between BlockWriter::insert and Block::read_from, single steps across block boundaries. Necessary conditions of exact ceiling/floor/match; algorithmic correctness over all key sets is not decided."),
  "C03": ("MIR pairing/dominance analysis of cached cursor state (typestate-like coherence) + compile-fail witness", "4 C03",
@@ -18,11 +18,11 @@ CLAIMS = {
  "C05": ("MIR control-dependence of yields + arm tables of move_on_last_prefix / advance_key + error-propagation check", "4 C05",
          "Static analysis: every Ok(Some) exit of both prefix iterators is guarded by starts_with on the yielded key and nothing else can yield; cursor errors are propagated, not folded into end-of-iteration; first-call/later-call tables; move_on_last_prefix and advance_key decoded as 3-arm tables. Output soundness on all paths is decided; completeness rests on C02 and on advance_key's value semantics (pinned by shape)."),
  "C06": ("MIR ordering-expression decoding + pop/push pairing + merge-once dominance", "4 C06",
-         "Static analysis: Entry::cmp decoded into (key, source index) both reversed once; source index from enumerate() over an append-only sources vector; one merge call outside loops with first-popped key and values in pop order; whole-key equality gathers; output buffers cleared before refill; every popped entry advanced once (error propagated) and pushed back iff non-empty; streaming loops insert exactly what was yielded. BinaryHeap's contract is trusted."),
+         "Static analysis: Entry::cmp decoded into (key, source index) both reversed once; source index from enumerate() over an append-only sources vector; one merge call outside loops with first-popped key and values in pop order; whole-key equality gathers; output buffers cleared before refill; every popped entry advanced once (error propagated) and pushed back iff non-empty; streaming loops insert exactly what was yielded; the single steps of the source cursors across block boundaries (shared with C03). BinaryHeap's contract is trusted."),
  "C07": ("MIR control-skeleton analysis of the sorter (dominance, tables, layout agreement) + merger rules", "4 C07",
-         "Static analysis: every insert path stores the entry exactly once; write_chunk sorts once, groups on whole-key inequality, merges once per group, pushes the flushed chunk then clears; every consumer goes through one final spill; chunk vector append/drain-only so order = age; chunks flushed before pushed and re-read from 0; sort dispatch tables (stable/unstable, sequential/rayon); all builder settings plumbed; buffer layout written by insert = layout read by iter/sort key, and the reallocation copies bounds to the front and entry bytes to the back of the new buffer (regions in linear form over each buffer's own length); plus the C06 merger rules. Output equality with a reference sort-and-merge is not decided."),
+         "Static analysis: every insert path stores the entry exactly once; write_chunk sorts once, groups on whole-key inequality, merges once per group, pushes the flushed chunk then clears; every consumer goes through one final spill; chunk vector append/drain-only so order = age; chunks flushed before pushed and re-read from 0; sort dispatch tables (stable/unstable, sequential/rayon); all builder settings plumbed; buffer layout written by insert = layout read by iter/sort key, and the reallocation copies bounds to the front and entry bytes to the back of the new buffer (regions in linear form over each buffer's own length); chunk offsets counted from what the chunk storage accepted; plus the C06 merger rules. Output equality with a reference sort-and-merge is not decided."),
  "C08": ("boolean truth-table extraction of the spill condition + threshold/growth/trigger dataflow + parametricity witness", "4 C08",
-         "Static analysis: the spill decision evaluated over its three boolean atoms (all 8 rows) equals `no spill iff fits or (not exceeded and allow)` with write_chunk before the insert; threshold = capacity >= clamped budget; growth factor exactly 2 from the non-fitting branch only; merge trigger `len >= max` (clamped >= 1), merge drains all and pushes one; budget settings survive build()/chunk_creator(); chunks only from ChunkCreator::create (bounds give no other constructor — compile-fail witness). The numeric high-water marks are not computed."),
+         "Static analysis: the spill decision evaluated over its three boolean atoms (all 8 rows) equals `no spill iff fits or (not exceeded and allow)` with write_chunk before the insert; threshold = capacity >= clamped budget; allocation rounded up to a multiple of 16 only; growth factor exactly 2 from the non-fitting branch only; merge trigger `len >= max` (clamped >= 1), merge drains all and pushes one; budget settings survive build()/chunk_creator(); chunks only from ChunkCreator::create (bounds give no other constructor — compile-fail witness). The numeric high-water marks are not computed."),
  "C09": ("format-description extraction (SEQ/TABLE/EXPR facts) compared with the statement, the sibling side and grenad 0.4.7 (XVER)", "4 C09",
          "Static extraction of the embodied file format — trailer sequences per version, block framing, symbolic entry layout, offset-table footer, index-entry encoding, codec ids and inverse, endianness inventory, varint tables — compared as data with the statement's constants, writer vs reader, and the same facts extracted from grenad 0.4.7; plus the structural index/offset/finish-order rules. Byte-level conformance of emitted files needs execution and is not decided."),
  "C10": ("V1 trailer table extraction + who-may-read non-interference analysis of file_version", "4 C10",
